@@ -112,11 +112,11 @@ def only_step_parents(rule, s):
     return sorted((step - direct) & s)
 
 
-def gen_case(r, cid, tier):
-    rule = r.choice(RULES)
-    d = r.choice([1, 2, 2, 3, 3, 3, 4, 4])
-    top = {1: 6, 2: 5, 3: 4, 4: 3}[d] - (1 if rule == "pwc" and d >= 2 else 0)
-    cap = 140 if tier == "quick" else 260
+def gen_case(r, cid, tier, rule=None, d=None, top=None, cap=None, force_kind=None):
+    rule = rule or r.choice(RULES)
+    d = d or r.choice([1, 2, 2, 3, 3, 3, 4, 4])
+    top = top or ({1: 7, 2: 6, 3: 5, 4: 4}[d] - (1 if rule == "pwc" and d >= 2 else 0))
+    cap = cap or (200 if tier == "quick" else 320)
 
     def point():
         return tuple(r.randrange(num_points(rule, r.randint(0, top))) if r.random() < 0.75 else r.choice([0, 0, 1, 2]) for _ in range(d))
@@ -131,11 +131,12 @@ def gen_case(r, cid, tier):
         kind_name = "deep-holes"
     else:
         kind_name = "arbitrary"
+    kind_name = force_kind or kind_name
     if kind_name == "arbitrary":
         s = set(point() for _ in range(r.randint(1, 25)))
     else:
         s = set()
-        for _ in range(r.randint(1, 5)):
+        for _ in range(r.randint(1, 7)):
             s2 = closure(rule, list(s) + [point()])
             if len(s2) > cap and s:
                 break
@@ -161,7 +162,32 @@ def gen_case(r, cid, tier):
         s = s2 or s
     pts = sorted(s)
     r.shuffle(pts)
+    if force_kind:
+        return pts, kind_name
     return "dag %s %s %d idx: %s" % (cid, rule, d, " ".join(str(v) for t in pts for v in t)), kind_name
+
+
+SUR_RULES = [("localp", 1, "localp"), ("localp", 2, "localp"), ("localp", 0, "pwc"), ("semi-localp", 2, "semilocalp"), ("localp-zero", 1, "localp0"),
+             ("localp-zero", 2, "localp0"), ("localp-boundary", 1, "localpb"), ("localp-boundary", 2, "localpb"), ("localp-boundary", 3, "localpb")]
+
+
+def gen_sur(r, cid, tier):
+    """a real grid holding exactly the set (3-4 dimensions: recomputeSurpluses chooses the algorithm by is_complete), dyadic values"""
+    name, order, eff = r.choice(SUR_RULES + [x for x in SUR_RULES if x[2] in MULTI])
+    d = r.choice([3, 3, 3, 4, 2])
+    kind = r.choice(["step-only", "step-only", "complete", "missing-direct"]) if eff in MULTI else r.choice(["complete", "missing-direct", "deep-holes"])
+    pts, _ = gen_case(r, cid, tier, rule=eff, d=d, top=3 if d <= 3 else 2, cap=30, force_kind=kind)
+    pts = pts[:60]          # any set is a valid input (a truncated one simply has holes)
+    vals = [r.randint(-16, 16) / 8.0 for _ in pts]
+    return "sur %s %s %d %d idx: %s vals: %s" % (cid, name, order, d, " ".join(str(v) for t in pts for v in t), " ".join(repr(v) for v in vals))
+
+
+def fixed_sur():
+    # the sets of the seeded history C03-10: only the step-parent (.,.,0) of (.,.,2) is missing, in the LAST direction
+    return ["sur u0 localp-boundary 1 3 idx: 0 0 1 0 0 2 1 0 1 1 0 2 0 1 1 0 1 2 1 1 1 1 1 2 vals: 1 0.5 -1 2 0.25 1.5 -0.75 1",
+            "sur u1 localp-boundary 2 3 idx: 0 0 1 0 0 2 1 0 1 1 0 2 0 1 1 0 1 2 1 1 1 1 1 2 0 0 3 vals: 1 0.5 -1 2 0.25 1.5 -0.75 1 0.5",
+            "sur u2 localp-boundary 1 3 idx: 0 0 0 0 0 1 0 0 2 1 0 0 1 0 1 1 0 2 vals: 1 0.5 -1 2 0.25 1.5",
+            "sur u3 semi-localp 2 3 idx: 0 0 0 0 0 2 0 0 4 0 1 0 vals: 1 0.5 -1 2"]
 
 
 def fixed_cases():
@@ -307,6 +333,7 @@ def run(res, tier, seed, replay_cases=None):
         else:
             res.violation("%s:%s" % (key, rule), "%s: %s [%s]" % (KEY_TEXT[key], " ".join(mline.split()[3:])[:700], case),
                           {"kind": "impl-counterexample", "driver": "dagdrv", "cases": [case], "detail": mline[:4000]})
+    sur = run_sur(res, tier, r, drv, wd, replay_cases)
     if not ok_ext and len(res.violations) == nv0:
         res.violation("extraction-dag", "extraction / build of the computeDAGup model failed", {"kind": "proof-break", "log": elog[-2000:]}, no_input=True)
     cov.update({
@@ -320,8 +347,79 @@ def run(res, tier, seed, replay_cases=None):
                 "are missing) / every point kept with probability 0.3-0.85 (holes over several levels) / arbitrary sets; plus fixed cases; "
                 "non-trivial = more than two points and at least one link",
         "sample": lines[len(lines) // 2] if lines else "",
+        "surpluses_of_grids_holding_the_set": sur,
     })
     return cov
+
+
+def run_sur(res, tier, r, drv, wd, replay_cases):
+    """grids holding exactly a given set (white-box: needed := set, loadNeededValues -> recomputeSurpluses, which picks the Kronecker or the
+    matrix-free algorithm by is_complete): the surpluses against the exact rational surpluses of Model.LocalGridUp.surpluses_up (corefast)"""
+    out = {"cases": 0, "agree": 0, "complete": 0, "incomplete": 0, "max_coeferr": 0.0, "skipped": 0}
+    if drv is None:
+        return out
+    if replay_cases:
+        lines = [l for l in replay_cases if l.startswith("sur ")]
+    else:
+        lines = fixed_sur() + [gen_sur(r, "v%d" % i, tier) for i in range({"quick": 60, "thorough": 600}[tier])]
+    if not lines:
+        return out
+    ok_ext, elog = vlib.coq_make(["Extract/ExtractCoreFast.vo"])
+    try:
+        runner = vlib.ocaml_runner("corefast") if ok_ext else None
+    except vlib.BuildError as e:
+        runner, elog = None, str(e)
+    if runner is None:
+        res.violation("extraction-dag", "extraction / build of the corefast runner failed", {"kind": "proof-break", "log": elog[-2000:]}, no_input=True)
+        return out
+    by_id = {l.split()[1]: l for l in lines}
+    cf = os.path.join(wd, "sur.txt")
+    with open(cf, "w") as fh:
+        fh.write("\n".join(lines) + "\n")
+    rc, so, se = vlib.run([drv, cf], timeout=300 if tier == "quick" else 1800)
+    if rc != 0:
+        done = [l.split()[1] for l in so.split("\n") if l.startswith(("s ", "x "))]
+        nxt = lines[len(done)] if len(done) < len(lines) else ""
+        res.violation("dagdrv-crash", "dagdrv exited with %d (%s) at case: %s" % (rc, se[-300:].strip(), nxt),
+                      {"kind": "impl-counterexample", "driver": "dagdrv", "cases": [nxt] if nxt else lines[-5:]})
+    comp = {}
+    for l in so.split("\n"):
+        t = l.split()
+        if l.startswith("s "):
+            comp[t[1]] = t[2] == "complete=1"
+        elif l.startswith("x "):
+            out["skipped"] += 1
+    lg = os.path.join(wd, "sur.lg")
+    with open(lg, "w") as fh:
+        fh.write("\n".join(l for l in so.split("\n") if l.startswith("lg ")) + "\n")
+    rc2, mo, me = vlib.run([runner, lg], timeout=600 if tier == "quick" else 3000)
+    worst = {}
+    for l in mo.split("\n"):
+        t = l.split()
+        if l.startswith("lg ") and len(t) > 3:
+            kv = dict(x.split("=") for x in t[2:])
+            ce = float.fromhex(kv["coeferr"])
+            out["cases"] += 1
+            out["complete" if comp.get(t[1]) else "incomplete"] += 1
+            out["max_coeferr"] = max(out["max_coeferr"], ce)
+            if ce <= 1e-9:
+                out["agree"] += 1
+            else:
+                case = by_id.get(t[1], "")
+                rule = case.split()[2] if case else "-"
+                if rule not in worst or len(case) < len(worst[rule][1]):
+                    worst[rule] = (ce, case, comp.get(t[1]))
+        elif l.startswith("MISMATCH"):
+            out["skipped"] += 1
+    if rc2 != 0 or out["cases"] + out["skipped"] < len(lines):
+        res.violation("correspondence-dag", "corefast runner failed or produced no result for some grids (%d of %d): %s" % (out["cases"], len(lines), me[-300:]),
+                      {"kind": "correspondence-break", "correspondence": "surpluses_up vs dagdrv sur"}, no_input=True)
+    for rule, (ce, case, c) in sorted(worst.items()):
+        res.violation("surpluses-differ-on-set:%s" % rule,
+                      "the surpluses of a grid holding exactly the given set differ from the exact hierarchical surpluses over the links of computeDAGup "
+                      "(relative error %.3g, is_complete=%s) [%s]" % (ce, c, case[:600]),
+                      {"kind": "impl-counterexample", "driver": "dagdrv", "cases": [case]})
+    return out
 
 
 def replay(path):
@@ -350,7 +448,7 @@ def finish_standalone(res):
         print("VIOLATION property=%s replay=%s%s" % (PID, v["replay"], " no-failing-input-found" if v["no_input"] else ""))
     short = {k: cov.get(k) for k in ("cases", "cases_agree", "comparisons_agree_exactly", "disagreements", "skipped", "complete_sets", "incomplete_sets",
                                       "sets_where_links_skip_levels", "links_compared", "points", "by_rule", "by_dimension", "complete_by_rule",
-                                      "generated_kinds", "distinct_nontrivial", "wall_s")}
+                                      "generated_kinds", "distinct_nontrivial", "surpluses_of_grids_holding_the_set", "wall_s")}
     print("SUMMARY " + json.dumps(short, default=str))
     sys.stdout.flush()
     return 1 if res.violations else 0
